@@ -79,6 +79,64 @@ func TestVerifC09(t *testing.T) {
 	if verifrt.WantCheck("C09.ticking") {
 		c09Ticking(t)
 	}
+	if verifrt.WantCheck("C09.clock") {
+		c09Clock(t)
+	}
+}
+
+// c09ProductionClock is the package's clock as the program ships it (the
+// other tests install their own).
+var c09ProductionClock = CounterTime
+
+// c09Clock: with the shipped clock, the span begins at 00:00 UTC of the
+// current UTC day whatever the machine's local time zone is.
+func c09Clock(t *testing.T) {
+	const check = "C09.clock"
+	res := verifrt.NewResult(check)
+	res.Rule = "the package's own CounterTime (not replaced) with time.Local set to UTC, fixed offsets -12h..+14h and synthetic zones with a recent offset change, all seven settings: the span begins at 00:00 UTC of the UTC day the real clock shows (either day if the call straddles midnight UTC) and ends 1..7 days later on the configured weekday. distinct = (zone, setting) pairs"
+	dir := c09SetDir()
+	defer os.RemoveAll(dir)
+	saved := CounterTime
+	savedLocal := time.Local
+	defer func() { CounterTime = saved; time.Local = savedLocal }()
+	CounterTime = c09ProductionClock
+	offsets := []int{0, -12, -11, -8, -3, 1, 5, 9, 13, 14}
+	for _, off := range offsets {
+		for we := 0; we < 7; we++ {
+			time.Local = time.FixedZone(fmt.Sprintf("Z%+d", off), off*3600)
+			s := fmt.Sprintf("%d\n", we)
+			c09Weekends(&s)
+			before := time.Now().UTC()
+			begin, end, err := c09CallSpan()
+			after := time.Now().UTC()
+			res.Eval()
+			res.Distinct(fmt.Sprintf("%d/%d", off, we))
+			rp := map[string]any{"utc_offset_hours": off, "weekend": we}
+			if err != nil {
+				res.Violate("span-error", err.Error(), rp)
+				continue
+			}
+			ok := false
+			for _, now := range []time.Time{before, after} {
+				day := now.Unix() / 86400
+				wb, wend := verifref.WeekSpan(day, we)
+				if begin.Unix() == wb*86400 && end.Unix() == wend*86400 && begin.Location() == time.UTC {
+					ok = true
+				}
+			}
+			if !ok {
+				res.Violate("span-not-in-utc", fmt.Sprintf("local zone UTC%+d, setting %d, real clock %s: span [%s, %s) does not begin at 00:00 UTC of the current UTC day", off, we, before.Format(time.RFC3339), begin.Format(time.RFC3339), end.Format(time.RFC3339)), rp)
+			}
+			if before.Add(time.Duration(off)*time.Hour).Format("2006-01-02") != before.Format("2006-01-02") {
+				res.Hit("local-date-differs-from-utc-date")
+			}
+		}
+	}
+	time.Local = savedLocal
+	res.Require("local-date-differs-from-utc-date")
+	if err := res.Write(); err != nil {
+		t.Fatal(err)
+	}
 }
 
 // c09Span sweeps counterSpan over every day of 1990..2069.
@@ -346,7 +404,7 @@ func c09Rotate(t *testing.T) {
 				c09Weekends(&s3)
 				res.Hit("setting-changed-before-rotation")
 			}
-			f.rotate1()
+			exp2 := f.rotate1()
 			c.Add(5)
 			files, _ := filepath.Glob(filepath.Join(telemetry.Default.LocalDir(), "*.count"))
 			dataA, _ = os.ReadFile(nameA)
@@ -361,6 +419,16 @@ func c09Rotate(t *testing.T) {
 				nday--
 			}
 			nb, nend := verifref.WeekSpan(nday, weNow)
+			// whatever the call did, it reports when the span in force ends: that is
+			// the instant the rotation timer is armed for (a zero time arms nothing)
+			if m2 := f.current.Load(); m2 != nil && f.err == nil {
+				d2, _ := os.ReadFile(m2.f.Name())
+				if cf2, err := verifref.ParseCounterFile(d2); err == nil {
+					if rec := cf2.MetaKV["TimeEnd"]; exp2.IsZero() || rec != exp2.Format(time.RFC3339) {
+						res.Violate("rotate-returns-other-than-current-end", fmt.Sprintf("rotate1 at end%+v returned %s; the file being counted into ends %s (the caller re-arms its timer with the returned instant)", delta, exp2.Format(time.RFC3339Nano), rec), replay)
+					}
+				}
+			}
 			if delta < 0 {
 				res.Hit("before-end")
 				if nend != wend {
